@@ -625,7 +625,30 @@ def judge(pid, seed, tier):
                 add(nm + ".score_per_obs", dict(degree=h, level_reassigned=[0.2, 0.9], degree_reassigned=[h, sf2.degree], y=yy.tolist(), z=[1.5, 1.0, 2.0]),
                     [got.tolist(), fresh.tolist(), got2.tolist(), fresh2.tolist()],
                     "a scorer whose public attribute level / degree was reassigned scores like a fresh scorer with those values")
+    if pid in ("C04", "C14"):
+        # the level enters an expectile score only through the factor 2 |1{z >= y} - level| (every degree, also the ones between
+        # the special cases)
+        for h in (0.5, 1.5, 2.0, 3.0, 0.0, 1.0, -1.0, 2.5):
+            for a in (0.2, 0.8):
+                for y, z in ((1.0, 2.0), (2.0, 0.5), (3.5, 3.5), (0.25, 4.0)):
+                    tried += 1
+                    r = real(lambda: HomogeneousExpectileScore(degree=h, level=a).score_per_obs([y], [z]))
+                    r0 = real(lambda: HomogeneousExpectileScore(degree=h, level=0.5).score_per_obs([y], [z]))
+                    if r[0] == "val" and r0[0] == "val":
+                        want = 2 * abs((1.0 if z >= y else 0.0) - a) * r0[1]
+                        if abs(r[1] - want) > 1e-12 * (1 + abs(want)):
+                            add("HomogeneousExpectileScore.score_per_obs", [h, a, y, z], [r, r0], f"S_level = 2 |1{{z>=y}} - level| S_(1/2) = {want}")
     if pid == "C05":
+        # log loss with soft labels (frequencies in (0, 1), few distinct values): the weighted mean minimises the average score
+        for ys_, ws_ in (([0.25, 0.75, 0.75], [1.0, 1.0, 2.0]), ([0.0, 0.5, 0.5, 0.0], [1.0, 1.0, 1.0, 1.0]), ([0.3, 0.3, 0.3], [1.0, 2.0, 1.0]), ([0.0, 1.0, 1.0, 0.25], [2.0, 1.0, 1.0, 1.0])):
+            t_ = sum(w * y for y, w in zip(ys_, ws_)) / sum(ws_)
+            rt = real(lambda: LogLoss()(np.asarray(ys_), np.full(len(ys_), t_), weights=np.asarray(ws_)))
+            for c_ in (0.05, 0.2, 0.35, 0.5, 0.65, 0.8, 0.95):
+                tried += 1
+                rc = real(lambda: LogLoss()(np.asarray(ys_), np.full(len(ys_), c_), weights=np.asarray(ws_)))
+                if rt[0] != "val" or rc[0] != "val" or rc[1] < rt[1] - 1e-12:
+                    add("LogLoss.__call__", dict(y=ys_, w=ws_, functional_value=t_, other_constant=c_), [rt, rc],
+                        "average log loss at the weighted mean <= average log loss at any other constant (soft labels)")
         # the level is documented as neglected for the median
         for eta in (1.0, 1.5, 2.0):
             tried += 1
